@@ -24,6 +24,72 @@ func ruleL27(p *Prog, r *Report) {
 	n := 0
 	const M, m = 100, 50
 	types4 := []string{"ArrayDataSlab", "ArrayMetaDataSlab", "MapDataSlab", "MapMetaDataSlab"}
+	// the lenders among the index slabs: CanLendToLeft / CanLendToRight(size) answer whether, after giving away the
+	// whole child headers that cover `size` bytes (ceil(size / header size) of them), the slab stays above the lower
+	// threshold. Decided on a grid: slab sizes around the threshold plus 0..3 headers, requests of 1..3 headers' worth.
+	for _, tn := range []string{"ArrayMetaDataSlab", "MapMetaDataSlab"} {
+		hname := "arraySlabHeaderSize"
+		if tn == "MapMetaDataSlab" {
+			hname = "mapSlabHeaderSize"
+		}
+		hc := p.RootSSA.Const(hname)
+		if hc == nil {
+			r.Unk(R, "anchor:"+hname, "-", "constant not found")
+			continue
+		}
+		h, okh := constInt(hc.Value)
+		if !okh || h <= 0 {
+			r.Unk(R, "anchor:"+hname, "-", "constant not integral")
+			continue
+		}
+		for _, pred := range []string{"CanLendToLeft", "CanLendToRight"} {
+			f := p.Method(tn, pred)
+			if f == nil {
+				r.Unk(R, "anchor:"+tn+"."+pred, "-", "predicate not found")
+				continue
+			}
+			n++
+			cons := "lender-predicate:" + tn + "." + pred
+			bad, und := "", ""
+			for s := int64(m - 2); s <= m+4*h && bad == "" && und == ""; s++ {
+				for size := int64(1); size <= 3*h && bad == "" && und == ""; size++ {
+					ev := &pureEvaluator{p: p, oracle: func(in pureInput) (int64, bool) {
+						switch {
+						case in.kind == "field" && strings.HasSuffix(in.name, "header.size"):
+							return s, true
+						case in.kind == "global" && in.name == "maxThreshold":
+							return M, true
+						case in.kind == "global" && in.name == "minThreshold":
+							return m, true
+						}
+						return 0, false
+					}}
+					sz := size
+					res, ok := ev.run(f, []*int64{nil, &sz}, 0)
+					if !ok {
+						und = ev.fail
+						break
+					}
+					k := (size + h - 1) / h
+					want := int64(0)
+					if s >= h*k && s-h*k > m {
+						want = 1
+					}
+					if len(res) != 1 || res[0] != want {
+						bad = fmt.Sprintf("with slab size %d, lower threshold %d, header size %d and a request of %d bytes it answers %v (whole headers needed: %d)", s, m, h, size, res, k)
+					}
+				}
+			}
+			switch {
+			case und != "":
+				r.Unk(R, cons, p.Pos(f.Pos()), "could not be evaluated: "+und)
+			case bad != "":
+				r.Bad(R, cons, p.Pos(f.Pos()), "the lender predicate does not count whole headers: "+bad+"; an index slab that cannot spare a child says it can, the pair is rebalanced instead of merged and one of them stays below the lower threshold")
+			default:
+				r.Ok(R, cons, p.Pos(f.Pos()), "agrees with 'after giving ceil(size/header) headers the slab stays above the lower threshold' on the whole grid")
+			}
+		}
+	}
 	for _, tn := range types4 {
 		for _, pred := range []string{"IsFull", "IsUnderflow"} {
 			f := p.Method(tn, pred)
